@@ -58,6 +58,10 @@ type Exec struct {
 	blocking map[string]*blockSite
 	onAlloc func(st *State, fr *frame, in *ssa.MakeSlice, et types.Type, n string)
 	stack []*ssa.Function
+	recDepth int
+	prune    bool
+	caseName string // foreach: the type bound to $K in this run
+	feasCalls int
 }
 
 func (e *Engine) shortName(fn *ssa.Function) string {
@@ -96,7 +100,7 @@ func (x *Exec) oblige(st *State, fn *ssa.Function, kind, detail, goal string) {
 	if fn == nil {
 		fn = x.root
 	}
-	name := x.siteName(fn, kind, 0, detail)
+	name := x.siteName(fn, kind, 0, detail) + x.caseSuffix()
 	o := &Obligation{Name: name, Func: x.e.shortName(x.root), Kind: kind, Goal: goal, Groups: map[string]bool{}}
 	o.Cmds = append([]string(nil), st.cmds...)
 	for g := range st.groups {
@@ -122,6 +126,18 @@ func (fr *frame) clone() *frame {
 	n.loops = make(map[*ssa.BasicBlock]bool, len(fr.loops))
 	for k, v := range fr.loops {
 		n.loops[k] = v
+	}
+	n.loopEntryCells = make(map[*ssa.BasicBlock]map[int]Val, len(fr.loopEntryCells))
+	for k, v := range fr.loopEntryCells {
+		n.loopEntryCells[k] = v
+	}
+	n.loopEntry = make(map[*ssa.BasicBlock]map[string]string, len(fr.loopEntry))
+	for k, v := range fr.loopEntry {
+		n.loopEntry[k] = v
+	}
+	n.unrolled = make(map[*ssa.BasicBlock]int, len(fr.unrolled))
+	for k, v := range fr.unrolled {
+		n.unrolled[k] = v
 	}
 	n.decs = make(map[*ssa.BasicBlock]string, len(fr.decs))
 	for k, v := range fr.decs {
@@ -208,7 +224,7 @@ func (x *Exec) obligeAt(st *State, fr *frame, kind string, pos token.Pos, what, 
 		x.sitePos[pk] = x.siteN[name]
 	}
 	n := x.sitePos[pk]
-	o := &Obligation{Name: fmt.Sprintf("%s#%d", name, n), Func: x.e.shortName(x.root), Kind: kind, Goal: goal, Pos: shortPos(x.e.fset, pos), Groups: map[string]bool{}}
+	o := &Obligation{Name: fmt.Sprintf("%s#%d%s", name, n, x.caseSuffix()), Func: x.e.shortName(x.root), Kind: kind, Goal: goal, Pos: shortPos(x.e.fset, pos), Groups: map[string]bool{}}
 	o.Cmds = append([]string(nil), st.cmds...)
 	for g := range st.groups {
 		o.Groups[g] = true
@@ -314,6 +330,23 @@ func (x *Exec) verify() {
 		ctx.vars[fv.Name()] = v
 		_ = i
 	}
+	for _, lv := range c.Logical {
+		t, err := e.resolveType(fn.Pkg.Pkg, lv[1])
+		if err != nil {
+			x.errs = append(x.errs, fmt.Sprintf("logical %s: %v", lv[0], err))
+			return
+		}
+		v := st.fresh("lv_"+lv[0], t)
+		st.assumeAllocated(t, v.T)
+		ctx.vars[lv[0]] = v
+	}
+	x.prune = c.Prune
+	for _, d := range c.Dyns {
+		if err := x.bindDyn(st, fr, ctx, d[0], strings.ReplaceAll(d[1], "$K", x.caseName)); err != nil {
+			x.errs = append(x.errs, "dyn "+d[0]+": "+err.Error())
+			return
+		}
+	}
 	// snapshot of initial heap for old(): shares lazily created entries
 	for k, v := range st.heap {
 		st.heap0[k] = v
@@ -359,7 +392,7 @@ func (x *Exec) checkPost(st *State, fn *ssa.Function, c *Contract, entry map[str
 }
 
 func (x *Exec) newFrame(fn *ssa.Function) *frame {
-	return &frame{fn: fn, regs: map[ssa.Value]Val{}, loops: map[*ssa.BasicBlock]bool{}, decs: map[*ssa.BasicBlock]string{}}
+	return &frame{fn: fn, regs: map[ssa.Value]Val{}, loops: map[*ssa.BasicBlock]bool{}, decs: map[*ssa.BasicBlock]string{}, unrolled: map[*ssa.BasicBlock]int{}, loopEntry: map[*ssa.BasicBlock]map[string]string{}, loopEntryCells: map[*ssa.BasicBlock]map[int]Val{}}
 }
 
 // ---------------------------------------------------------------- loops
@@ -518,10 +551,36 @@ func (x *Exec) loopSpec(fn *ssa.Function, ord int) *LoopSpec {
 
 // enterLoop handles arrival at a loop header. Returns false if the path ends here (back edge).
 func (x *Exec) enterLoop(st *State, fr *frame, li *loopInfo) bool {
+	// a range loop over a slice whose length is a literal on this path is executed iteration by iteration
+	if x.concreteRange(st, fr, li) {
+		fr.unrolled[li.header]++
+		if fr.unrolled[li.header] > 80 {
+			x.fail(st, "unroll-limit", "")
+			return false
+		}
+		return true
+	}
+	if os.Getenv("P9VC_TRACE") != "" {
+		fmt.Fprintf(os.Stderr, "loop cut in %s ordinal %d\n", fr.fn.Name(), li.ordinal)
+		cnt := map[string]int{}
+		for _, al := range fr.allocs {
+			cnt[al.Comment]++
+			fmt.Fprintf(os.Stderr, "   local %s#%d : %v\n", al.Comment, cnt[al.Comment], al.Type())
+		}
+	}
 	spec := x.loopSpec(fr.fn, li.ordinal)
 	lname := fmt.Sprintf("loop%d", li.ordinal)
+	if !fr.loops[li.header] {
+		fr.loopEntry[li.header] = st.snapshot()
+		cs := make(map[int]Val, len(st.cells))
+		for k, v := range st.cells {
+			cs[k] = v
+		}
+		fr.loopEntryCells[li.header] = cs
+	}
 	inv := func(phase string) {
 		ctx := x.localCtx(st, fr, li)
+		ctx.entry, ctx.entryCells = fr.loopEntry[li.header], fr.loopEntryCells[li.header]
 		// automatic invariant of range loops: -1 <= index and index+1 <= length of the ranged value
 		if v, ok := ctx.lookup("$i"); ok {
 			x.oblige(st, fr.fn, "inv-"+phase, lname+"/auto-rangeindex", and("(>= "+v.T+" (- 1))", x.rangeBound(st, fr, li, v.T)))
@@ -569,6 +628,7 @@ func (x *Exec) enterLoop(st *State, fr *frame, li *loopInfo) bool {
 	st.havocSet(ms)
 	// assume invariant
 	ctx := x.localCtx(st, fr, li)
+	ctx.entry, ctx.entryCells = fr.loopEntry[li.header], fr.loopEntryCells[li.header]
 	if v, ok := ctx.lookup("$i"); ok {
 		st.assume("(>= " + v.T + " (- 1))")
 		st.assume(x.rangeBound(st, fr, li, v.T))
@@ -637,6 +697,17 @@ func (x *Exec) runBlock(st *State, fr *frame, b *ssa.BasicBlock, from int) []out
 			continue
 		case *ssa.If:
 			c := x.val(st, fr, in.Cond)
+			if x.prune && c.T != "true" && c.T != "false" {
+				// statically bounded recursion over symbolic data (the codec): follow feasible branches only
+				// refutations are quick, satisfiability with quantified axioms is not: ask which side is impossible
+				if !x.feasibleCond(st, c.T) {
+					st.assumePC(not(c.T))
+					c.T = "false"
+				} else if !x.feasibleCond(st, not(c.T)) {
+					st.assumePC(c.T)
+					c.T = "true"
+				}
+			}
 			var outs []outcome
 			if c.T != "false" {
 				s1, f1 := st, fr
@@ -681,6 +752,19 @@ func (x *Exec) runBlock(st *State, fr *frame, b *ssa.BasicBlock, from int) []out
 			if len(outs) == 1 && outs[0].st == st {
 				fr.regs[in] = outs[0].val
 				continue
+			}
+			if os.Getenv("P9VC_TRACE") != "" {
+				fmt.Fprintf(os.Stderr, "split %d at %s: %s\n", len(outs), shortPos(x.e.fset, in.Pos()), in.String())
+			}
+			if x.prune {
+				// later alternatives are the failure cases: refute them first; the last survivor is kept unchecked
+				var keep []callOut
+				for k := len(outs) - 1; k >= 0; k-- {
+					if (k == 0 && len(keep) == 0) || x.feasibleCond(outs[k].st, "true") {
+						keep = append([]callOut{outs[k]}, keep...)
+					}
+				}
+				outs = keep
 			}
 			var all []outcome
 			for k, o := range outs {
@@ -768,6 +852,10 @@ func (x *Exec) step(st *State, fr *frame, in ssa.Instruction) bool {
 		fr.regs[in] = Val{Ty: in.Type(), Addr: a.withField(in.Field)}
 	case *ssa.Field:
 		v := x.val(st, fr, in.X)
+		if sv, ok := v.Sub[in.Field]; ok {
+			fr.regs[in] = sv
+			return true
+		}
 		t, ty := st.project(v.T, v.Ty, []int{in.Field})
 		fr.regs[in] = Val{T: t, Ty: ty}
 	case *ssa.IndexAddr:
@@ -775,6 +863,15 @@ func (x *Exec) step(st *State, fr *frame, in ssa.Instruction) bool {
 		iv := x.val(st, fr, in.Index)
 		switch u := xv.Ty.Underlying().(type) {
 		case *types.Slice:
+			if ci, ok := constOf(iv.T); ok && xv.HasArr && ci.IsInt64() {
+				i := int(ci.Int64())
+				x.obligeAt(st, fr, "index-bounds", in.Pos(), "", fmt.Sprint(i >= 0 && i < xv.ArrLen))
+				if i < 0 || i >= xv.ArrLen {
+					return false
+				}
+				fr.regs[in] = Val{Ty: in.Type(), Addr: &Addr{Kind: AElem, Base: xv.ArrBase, Idx: fmt.Sprint(xv.ArrOff + i), RootTy: u.Elem()}}
+				return true
+			}
 			x.obligeAt(st, fr, "index-bounds", in.Pos(), "", and("(<= 0 "+iv.T+")", "(< "+iv.T+" (s_len "+xv.T+"))"))
 			st.assume(and("(<= 0 "+iv.T+")", "(< "+iv.T+" (s_len "+xv.T+"))"))
 			fr.regs[in] = Val{Ty: in.Type(), Addr: &Addr{Kind: AElem, Base: "(s_base " + xv.T + ")", Idx: st.name("ix", "Int", "(+ (s_off "+xv.T+") "+iv.T+")"), RootTy: u.Elem()}}
@@ -782,6 +879,7 @@ func (x *Exec) step(st *State, fr *frame, in ssa.Instruction) bool {
 			at := u.Elem().Underlying().(*types.Array)
 			x.obligeAt(st, fr, "index-bounds", in.Pos(), "", and("(<= 0 "+iv.T+")", fmt.Sprintf("(< %s %d)", iv.T, at.Len())))
 			fr.regs[in] = Val{Ty: in.Type(), Addr: &Addr{Kind: AElem, Base: st.term(xv), Idx: iv.T, RootTy: at.Elem()}}
+			_ = at
 		default:
 			x.fail(st, "indexaddr", xv.Ty.String())
 			return false
@@ -814,7 +912,11 @@ func (x *Exec) step(st *State, fr *frame, in ssa.Instruction) bool {
 		loc := st.newLoc("mk")
 		_, _, h := st.elemHeap(et)
 		st.assumeZeroArray("(select "+h+" "+loc+")", et)
-		fr.regs[in] = Val{T: st.name("sl", "Slice", "(mk_slice "+loc+" 0 "+ln.T+" "+cp.T+")"), Ty: in.Type()}
+		mv := Val{T: st.name("sl", "Slice", "(mk_slice "+loc+" 0 "+ln.T+" "+cp.T+")"), Ty: in.Type()}
+		if cl, ok := constOf(ln.T); ok && ln.T != "" && cl.IsInt64() && cl.Int64() <= 64 {
+			mv.HasArr, mv.ArrBase, mv.ArrLen = true, loc, int(cl.Int64())
+		}
+		fr.regs[in] = mv
 	case *ssa.MakeMap:
 		loc := st.newLoc("map")
 		hid, _, lid := mapIDs(in.Type())
@@ -943,6 +1045,9 @@ func (x *Exec) unop(st *State, fr *frame, in *ssa.UnOp) Val {
 }
 
 func (x *Exec) cmpEq(st *State, a, b Val) string {
+	if a.T != "" && a.T == b.T {
+		return "true" // syntactically identical terms (no floating point in the analysed code)
+	}
 	// interface vs nil, slices vs nil, general equality
 	if _, ok := a.Ty.Underlying().(*types.Slice); ok {
 		if b.T == "(mk_slice 0 0 0 0)" {
@@ -954,9 +1059,15 @@ func (x *Exec) cmpEq(st *State, a, b Val) string {
 	}
 	if _, ok := a.Ty.Underlying().(*types.Interface); ok {
 		if b.T == "(mk_iface 0 0)" {
+			if a.Dyn != nil {
+				return "false"
+			}
 			return "(= (i_tag " + a.T + ") 0)"
 		}
 		if a.T == "(mk_iface 0 0)" {
+			if b.Dyn != nil {
+				return "false"
+			}
 			return "(= (i_tag " + b.T + ") 0)"
 		}
 	}
@@ -974,9 +1085,19 @@ func (x *Exec) binop(st *State, fr *frame, in *ssa.BinOp) Val {
 	a, b := x.val(st, fr, in.X), x.val(st, fr, in.Y)
 	rt := in.Type()
 	switch in.Op {
-	case token.EQL:
-		return Val{T: x.cmpEq(st, a, b), Ty: rt}
-	case token.NEQ:
+	case token.EQL, token.NEQ:
+		if ca, ok1 := constOf(a.T); ok1 && a.T != "" {
+			if cb, ok2 := constOf(b.T); ok2 {
+				eqv := ca.Cmp(cb) == 0
+				if in.Op == token.NEQ {
+					eqv = !eqv
+				}
+				return Val{T: fmt.Sprint(eqv), Ty: rt}
+			}
+		}
+		if in.Op == token.EQL {
+			return Val{T: x.cmpEq(st, a, b), Ty: rt}
+		}
 		return Val{T: not(x.cmpEq(st, a, b)), Ty: rt}
 	}
 	if isStringTy(a.Ty) {
@@ -986,6 +1107,37 @@ func (x *Exec) binop(st *State, fr *frame, in *ssa.BinOp) Val {
 		case token.LSS, token.LEQ, token.GTR, token.GEQ:
 			r := st.fresh("strcmp", rt)
 			return r
+		}
+	}
+	if ca, ok1 := constOf(a.T); ok1 {
+		if cb, ok2 := constOf(b.T); ok2 {
+			// constant folding keeps statically known loops and branches concrete
+			c := ca.Cmp(cb)
+			switch in.Op {
+			case token.LSS:
+				return Val{T: fmt.Sprint(c < 0), Ty: rt}
+			case token.LEQ:
+				return Val{T: fmt.Sprint(c <= 0), Ty: rt}
+			case token.GTR:
+				return Val{T: fmt.Sprint(c > 0), Ty: rt}
+			case token.GEQ:
+				return Val{T: fmt.Sprint(c >= 0), Ty: rt}
+			case token.MUL:
+				r := new(big.Int).Mul(ca, cb)
+				lo, hi, _, _ := intRange(rt)
+				if lo != nil && r.Cmp(lo) >= 0 && r.Cmp(hi) <= 0 {
+					return Val{T: bigTerm(r), Ty: rt}
+				}
+			case token.ADD, token.SUB:
+				r := new(big.Int).Add(ca, cb)
+				if in.Op == token.SUB {
+					r = new(big.Int).Sub(ca, cb)
+				}
+				lo, hi, _, _ := intRange(rt)
+				if lo != nil && r.Cmp(lo) >= 0 && r.Cmp(hi) <= 0 {
+					return Val{T: bigTerm(r), Ty: rt}
+				}
+			}
 		}
 	}
 	switch in.Op {
@@ -1156,7 +1308,31 @@ func (x *Exec) slice(st *State, fr *frame, in *ssa.Slice) (Val, bool) {
 		st.assume(g)
 		base := "(s_base " + xv.T + ")"
 		r := fmt.Sprintf("(mk_slice %s (+ (s_off %s) %s) (- %s %s) (- %s %s))", base, xv.T, lo, hi, lo, mx, lo)
-		return Val{T: st.name("sl", "Slice", r), Ty: in.Type()}, true
+		rv := Val{T: st.name("sl", "Slice", r), Ty: in.Type()}
+		if xv.HasArr {
+			// re-slicing a slice of statically known shape with literal bounds keeps the shape
+			clo, ok1 := constOf(lo)
+			l, h := 0, xv.ArrLen
+			okShape := true
+			if in.Low != nil {
+				if ok1 && clo.IsInt64() {
+					l = int(clo.Int64())
+				} else {
+					okShape = false
+				}
+			}
+			if in.High != nil {
+				if chi, ok := constOf(hi); ok && chi.IsInt64() {
+					h = int(chi.Int64())
+				} else {
+					okShape = false
+				}
+			}
+			if okShape && 0 <= l && l <= h && h <= xv.ArrLen {
+				rv.HasArr, rv.ArrBase, rv.ArrOff, rv.ArrLen = true, xv.ArrBase, xv.ArrOff+l, h-l
+			}
+		}
+		return rv, true
 	case *types.Basic: // string
 		lo := get(in.Low, "0")
 		hi := get(in.High, "(slen "+xv.T+")")
@@ -1176,7 +1352,7 @@ func (x *Exec) slice(st *State, fr *frame, in *ssa.Slice) (Val, bool) {
 		r := fmt.Sprintf("(mk_slice %s %s (- %s %s) (- %s %s))", st.term(xv), lo, hi, lo, mx, lo)
 		rv := Val{T: st.name("sl", "Slice", r), Ty: in.Type()}
 		if in.Low == nil && in.High == nil && in.Max == nil {
-			rv.ArrLen, rv.ArrBase = int(at.Len()), st.term(xv)
+			rv.ArrLen, rv.ArrBase, rv.HasArr = int(at.Len()), st.term(xv), true
 		}
 		return rv, true
 	}
@@ -1195,7 +1371,11 @@ func (x *Exec) convert(st *State, fr *frame, in *ssa.Convert) (Val, bool) {
 		if lo != nil && lo2 != nil && lo.Cmp(lo2) >= 0 && hi.Cmp(hi2) <= 0 {
 			return Val{T: v.T, Ty: to}, true // widening
 		}
-		return Val{T: st.name("cv", "Int", e.wrap(to, v.T)), Ty: to}, true
+		src := v.T
+		if len(src) >= 70 {
+			src = st.name("cvx", "Int", src)
+		}
+		return Val{T: st.name("cv", "Int", e.wrap(to, src)), Ty: to}, true
 	case isStringTy(to) && isByteSlice(from):
 		return Val{T: "(mkstr " + st.window(v.T) + ")", Ty: to}, true
 	case isByteSlice(to) && isStringTy(from):
@@ -1232,6 +1412,9 @@ func (x *Exec) typeAssert(st *State, fr *frame, in *ssa.TypeAssert) (Val, bool) 
 	e := x.e
 	v := x.val(st, fr, in.X)
 	at := in.AssertedType
+	if os.Getenv("P9VC_TRACE") != "" {
+		fmt.Fprintf(os.Stderr, "typeassert %s in %s: %v dyn=%v term=%.60s\n", shortPos(x.e.fset, in.Pos()), fr.fn.Name(), at, v.Dyn, v.T)
+	}
 	var ok, val string
 	var rv Val
 	if it, isI := at.Underlying().(*types.Interface); isI {
@@ -1422,4 +1605,133 @@ func (x *Exec) rangeBound(st *State, fr *frame, li *loopInfo, idx string) string
 		}
 	}
 	return "true"
+}
+
+// concreteRange: the header's length operand is an integer literal (e.g. a variadic argument list, the field list of a struct).
+func (x *Exec) concreteRange(st *State, fr *frame, li *loopInfo) bool {
+	isRange := false
+	for _, al := range fr.allocs {
+		if al.Comment == "rangeindex" && x.storeBlockOf(al, li) != nil {
+			isRange = true
+		}
+	}
+	if !isRange {
+		return false
+	}
+	for _, in := range li.header.Instrs {
+		if iff, ok := in.(*ssa.If); ok {
+			if b, ok := iff.Cond.(*ssa.BinOp); ok && b.Op == token.LSS {
+				if lv, ok := fr.regs[b.Y]; ok {
+					if _, isC := constOf(lv.T); isC && lv.T != "" {
+						return true
+					}
+				}
+			}
+		}
+	}
+	return false
+}
+
+func (x *Exec) caseSuffix() string {
+	if x.caseName == "" {
+		return ""
+	}
+	return "[" + x.caseName + "]"
+}
+
+// bindDyn pins the dynamic type of an interface-typed parameter (path "v") or of an interface-typed field of the struct a
+// pinned pointer parameter refers to (path "v.Message") for this run: the tag is assumed and the Go-side value carries
+// the type, so that type switches, reflection and dispatch are resolved statically.
+func (x *Exec) bindDyn(st *State, fr *frame, ctx *SpecCtx, path, tname string) error {
+	e := x.e
+	t, err := e.resolveType(fr.fn.Pkg.Pkg, tname)
+	if err != nil {
+		return err
+	}
+	parts := strings.Split(path, ".")
+	if lv, ok := ctx.vars[parts[0]]; ok && len(parts) == 2 && isStruct(lv.Ty) {
+		isParam := false
+		for _, p := range fr.fn.Params {
+			if p.Name() == parts[0] {
+				isParam = true
+			}
+		}
+		if !isParam {
+			// interface-typed field of a logical struct value
+			si := e.structInfo(lv.Ty)
+			for i, f := range si.Fields {
+				if f.Name() == parts[1] {
+					cur := Val{T: app(si.Sel[i], lv.T), Ty: f.Type()}
+					pv := Val{T: st.name("dyn", e.sortOf(t), e.unbox(t, "(i_ref "+cur.T+")")), Ty: t}
+					st.assume(fmt.Sprintf("(= (i_tag %s) %d)", cur.T, e.typeTag(t)))
+					st.assume(eq(cur.T, e.mkIface(t, pv.T)))
+					st.assume(e.typeInv(t, pv.T))
+					st.assumeAllocated(t, pv.T)
+					cur.Dyn, cur.Payload = t, &pv
+					nv := lv
+					nv.Sub = map[int]Val{}
+					for k, x := range lv.Sub {
+						nv.Sub[k] = x
+					}
+					nv.Sub[i] = cur
+					ctx.vars[parts[0]] = nv
+					return nil
+				}
+			}
+			return fmt.Errorf("no field %s", parts[1])
+		}
+	}
+	var pi = -1
+	for i, p := range fr.fn.Params {
+		if p.Name() == parts[0] {
+			pi = i
+		}
+	}
+	if pi < 0 {
+		return fmt.Errorf("no parameter %s", parts[0])
+	}
+	pin := func(v Val) Val {
+		pv := Val{T: st.name("dyn", e.sortOf(t), e.unbox(t, "(i_ref "+v.T+")")), Ty: t}
+		st.assume(fmt.Sprintf("(= (i_tag %s) %d)", v.T, e.typeTag(t)))
+		st.assume(eq(v.T, e.mkIface(t, pv.T)))
+		st.assume(e.typeInv(t, pv.T))
+		st.assumeAllocated(t, pv.T)
+		v.Dyn, v.Payload = t, &pv
+		return v
+	}
+	pv := fr.regs[fr.fn.Params[pi]]
+	if len(parts) == 1 {
+		if _, ok := pv.Ty.Underlying().(*types.Interface); !ok {
+			return fmt.Errorf("%s is not of interface type", path)
+		}
+		nv := pin(pv)
+		fr.regs[fr.fn.Params[pi]] = nv
+		fr.params[pi] = nv
+		ctx.vars[parts[0]] = nv
+		return nil
+	}
+	if len(parts) != 2 {
+		return fmt.Errorf("unsupported path")
+	}
+	// field of the struct the (pinned) pointer refers to
+	ptr := pv
+	if pv.Dyn != nil && pv.Payload != nil {
+		ptr = *pv.Payload
+	}
+	pt, ok := ptr.Ty.Underlying().(*types.Pointer)
+	if !ok {
+		return fmt.Errorf("%s is not a pointer", parts[0])
+	}
+	si := e.structInfo(pt.Elem())
+	for i, f := range si.Fields {
+		if f.Name() == parts[1] {
+			st.assume("(not (= " + ptr.T + " 0))")
+			a := &Addr{Kind: AObj, Loc: ptr.T, RootTy: pt.Elem(), Path: []int{i}}
+			cur := st.load(a)
+			nv := pin(cur)
+			st.shadowWrite(fieldHeapID(si, i), ptr.T, "", nv)
+			return nil
+		}
+	}
+	return fmt.Errorf("no field %s", parts[1])
 }
